@@ -201,9 +201,9 @@ def r_detect_output(ck: Checker) -> None:
 
 
 RULES = [
-    Rule("C18.EXHAUST.predicates", P + ("C07",), r_predicates_cover),
-    Rule("C18.headderivable", P + ("C08", "C20"), r_headderivable),
-    Rule("C18.body", P + ("C15", "C20", "C08"), r_body_cover),
-    Rule("C18.FLOW.detect-input", P, r_detect_input),
-    Rule("C18.detect-output", P, r_detect_output),
+    Rule("C18.EXHAUST.predicates", P + ("C07", "C19"), r_predicates_cover, extra={p_: ("SIGNS lists every sign",) for p_ in ("C20", "C12", "C13", "C15", "C09", "C08")}),
+    Rule("C18.headderivable", P + ("C08", "C20", "C19"), r_headderivable),
+    Rule("C18.body", P + ("C15", "C20", "C08", "C19"), r_body_cover),
+    Rule("C18.FLOW.detect-input", P + ("C19",), r_detect_input),
+    Rule("C18.detect-output", P + ("C19",), r_detect_output),
 ]
